@@ -336,6 +336,8 @@ class Loops(object):
             g2 = ghosts(None, idx + 1)
         assume_inv(g)
         I.assign(ctx, fr, node.target, elem, node)
+        saved_ghosts = getattr(fr, 'loop_ghosts', None)
+        fr.loop_ghosts = dict(saved_ghosts or {}, **g)
         mark = ctx.next_rid
         ctx.loop_guard.append((mark, set(r.rid for r, _ in mod_refs.values())))
         attr_before = dict(ctx.attr)
@@ -346,11 +348,13 @@ class Loops(object):
                 pass
         except BreakSig:
             ctx.loop_guard.pop()
+            fr.loop_ghosts = saved_ghosts
             return
         except (ReturnSig, RaiseSig):
             ctx.loop_guard.pop()
             raise
         ctx.loop_guard.pop()
+        fr.loop_ghosts = saved_ghosts
         for k, a in ctx.attr.items():
             changed = (not attr_before[k].eq(a)) if k in attr_before else (not a.eq(Z.const('H0:%s' % k, a.sort())))
             if changed and k.split('.')[-1] not in spec.havoc_attrs:
